@@ -118,6 +118,22 @@ func (p *Provider) SetID(id string) {
 	p.client.RequestHeaders().Set("id", id)
 }
 
+// argumentValue returns the reflect.Value of the i-th argument of a call to a function of type ft.
+// A nil argument becomes the zero value of the parameter type (reflect.ValueOf(nil) is not a valid argument).
+func argumentValue(ft reflect.Type, i int, arg interface{}) reflect.Value {
+	if arg != nil {
+		return reflect.ValueOf(arg)
+	}
+	n := ft.NumIn()
+	if ft.IsVariadic() && i >= n-1 {
+		return reflect.Zero(ft.In(n - 1).Elem())
+	}
+	if i < n {
+		return reflect.Zero(ft.In(i))
+	}
+	return reflect.ValueOf(arg)
+}
+
 func (p *Provider) Execute(ctx context.Context, name string, args []interface{}) (result []interface{}, err error) {
 	method := GetProviderContext(ctx).method
 	if method.Missing() {
@@ -127,20 +143,21 @@ func (p *Provider) Execute(ctx context.Context, name string, args []interface{})
 		return method.(interface{}).(missingMethod)(name, args)
 	}
 	n := len(args)
+	f := method.Func()
+	ft := f.Type()
 	var in []reflect.Value
 	if method.PassContext() {
 		in = make([]reflect.Value, n+1)
 		in[0] = reflect.ValueOf(ctx)
 		for i := 0; i < n; i++ {
-			in[i+1] = reflect.ValueOf(args[i])
+			in[i+1] = argumentValue(ft, i+1, args[i])
 		}
 	} else {
 		in = make([]reflect.Value, n)
 		for i := 0; i < n; i++ {
-			in[i] = reflect.ValueOf(args[i])
+			in[i] = argumentValue(ft, i, args[i])
 		}
 	}
-	f := method.Func()
 	out := f.Call(in)
 	n = len(out)
 	if method.ReturnError() {
